@@ -453,6 +453,31 @@ def _run(V, work, tier):
                 elif strip(rm["v"]) != want_tree:
                     V.add(None, "%r (%s) loads to a different value than the specification's" % (show, m), {"doc": show, "mode": m, "real": strip(rm["v"]), "spec": want_tree})
         V.sample({"family": fname, "doc": docs[len(docs) // 2]["bytes"].decode("utf-8", "backslashreplace"), "accept": docs[len(docs) // 2]["accept"]})
+    # ---- the trailing-content rule at EVERY document length (JsonDoc.Parse accepts a text only if nothing but white space
+    # follows the value; TLC cannot unfold Parse over kilobytes, so the rule is applied by its statement here and Python's
+    # json is asked as well): a valid array / object / string of total length L, L = 2..8300, followed by one more closing
+    # bracket, a second document, a stray character - rejected in every mode, as json:syntax-error in the default and
+    # :exact-integers modes; the same document without the tail - accepted
+    sweep = []
+    for L in (range(2, 8300) if thorough else sorted(set(list(range(2, 1100)) + list(range(1500, 1570)) + list(range(2030, 2070)) + list(range(3560, 3600)) + list(range(4080, 4120)) + list(range(7660, 7700)) + list(range(8180, 8210)) + rnd.sample(range(1100, 8300), 250)))):
+        kind = L % 3
+        body = (b'["' + b"a" * max(0, L - 4) + b'"]') if kind == 0 and L >= 4 else (b'{"k":' + b" " * max(0, L - 8) + b"1" + b"}") if kind == 1 and L >= 8 else (b"[" + b" " * max(0, L - 2) + b"]")
+        tail = [b"]", b"}", b" x", b"[1]", b" 1", b"\n{}"][L % 6]
+        sweep.append({"id": "ok%d" % L, "doc_b64": b64(body), "want": True, "doc": body})
+        sweep.append({"id": "tail%d" % L, "doc_b64": b64(body + tail), "want": False, "doc": body + tail})
+    sw = driver_sharded(binary, "jsonx", [{"id": x["id"], "doc_b64": x["doc_b64"]} for x in sweep])
+    for x in sweep:
+        pacc, _ = py_value(x["doc"])
+        if pacc is not None and pacc != x["want"]:
+            raise MachineryError("the independent decoder disagrees with the trailing-content rule on a %d-byte document" % len(x["doc"]))
+        for m in MODES:
+            rm = sw[x["id"]]["loads"][m]
+            show = "%d bytes: %s...%s" % (len(x["doc"]), x["doc"][:12].decode(), x["doc"][-10:].decode())
+            if rm["ok"] != x["want"]:
+                V.add(None, "%s JSON is %s (%s): %s" % ("valid" if x["want"] else "invalid (content after the document)", "accepted" if rm["ok"] else "rejected", m, show), {"doc_len": len(x["doc"]), "mode": m, "tail": x["doc"][-10:].decode()})
+            elif not x["want"] and m in ("dd", "de") and rm["cond"] != "json:syntax-error":
+                V.add(None, "content after the document is rejected with %s instead of json:syntax-error (%s): %s" % (rm["cond"], m, show), {"doc_len": len(x["doc"]), "mode": m})
+    V.coverage["trailing_content_sweep"] = len(sweep)
     V.coverage["documents"] = ndocs
     V.coverage["documents_accepted"] = accepted
     if accepted < 200:
